@@ -1,5 +1,6 @@
 import RsMatterVerif.Model.Pase
 import RsMatterVerif.Model.PaseFs
+import RsMatterVerif.Model.PaseInit
 import Driver.Util
 /-! Driver for C02: replays the harness' scripts (window operations - basic and enhanced -, virtual
 time, PASE initiators played message by message against the real responder, duplicated / re-sent
@@ -51,6 +52,8 @@ structure Spec where
   lingering : Bool := false
 
 structure St where
+  /-- `init` case: the real initiator against the real responder, messages modified in flight -/
+  initMode : Bool := false
   m : Pase.St := {}
   /-- the fail-safe (`Model/PaseFs.lean`): the instant it expires when armed -/
   fs : Option Nat := none
@@ -139,12 +142,64 @@ def victimOf (ev : String) : Option VClass :=
   | some "P" => some .pase
   | _ => none
 
+/-- what reached the initiator, as a message of `Model/PaseInit.lean`. The honest responder's values: request,
+response, shares and salt / iteration count have identity 1; its `cB` is computed from ITS view (`rv`). -/
+def initMsg (rv : PaseInit.RespView) (tok : String) : PaseInit.Msg :=
+  let good : PaseInit.Resp := { payload := 1, random := 1, hasParams := true, salt := 1, saltLen := 32, iterations := 1 }
+  match tok.splitOn ":" with
+  | ["21", "same"] => .resp good
+  | ["21", "field"] => .resp { good with payload := 2 }
+  | ["21", "rnd"] => .resp { good with payload := 2, random := 2 }
+  | ["21", "noparams"] => .resp { good with payload := 2, hasParams := false }
+  | ["21", "saltlen"] => .resp { good with payload := 2, saltLen := 15 }
+  | ["21", _] => .respMalformed
+  | ["23", "same"] => .pake2 1 rv.cb
+  | ["23", "field"] => .pake2 2 rv.cb
+  | ["23", _] => .pake2Malformed
+  | ["40", "same"] => .status true
+  | ["40", "parse"] => .statusMalformed
+  | ["40", _] => .status false
+  | _ => .otherOpcode
+
+/-- one `hs` of an `init` case: the model's verdict and the specification on the implementation's answer -/
+def initStep (devPw : Nat) (m o' : KV) : String :=
+  let ipw := m.num "ipw"
+  let rxs := ((o'.get "rx").getD "-").splitOn "," |>.filter (fun t => t != "-" && t != "")
+  let rv : PaseInit.RespView := { vR := { passcode := devPw, salt := 1, iterations := 1 }, reqSeen := 1, respSent := 1, pASeen := 1, pB := 1 }
+  let s0 : PaseInit.St := { passcode := ipw, rnd := 1, req := 1, pA := 1 }
+  let (sN, sent, notify) := rxs.foldl (fun (acc : PaseInit.St × Nat × Bool) tok =>
+    let r := PaseInit.step acc.1 (initMsg rv tok)
+    let sent := match r.2 with | .sendPake1 | .sendPake3 => acc.2.1 + 1 | _ => acc.2.1
+    let notify := match r.2 with | .fail true => true | _ => acc.2.2
+    (r.1, sent, notify)) (s0, 1, false)
+  let est := match sN.stage with | .established _ => true | _ => false
+  let implOk := (o'.get "res") = some "ok"
+  let implSess := o'.num "isess"
+  let untouched := rxs = ["21:same", "23:same", "40:same"]
+  -- the property, on the implementation's answer alone: a session on the initiator's side only with the right
+  -- passcode and with PBKDFParamResponse, Pake2 and the success report exactly as the responder sent them
+  if implSess > 0 && ipw ≠ devPw then "ORA the initiator completed a session with a passcode the responder's window does not have"
+  else if implSess > 0 && !untouched then "ORA the initiator completed a session although a message of the responder was modified / replaced in flight"
+  else if implOk && implSess = 0 then "ORA the initiator reported success without a session"
+  else if o'.num "dsess" > 0 && ipw ≠ devPw then "ORA a session on the device for an initiator with a wrong passcode"
+  else
+    let mo := s!"res={if est then "ok" else "err"} sent={sent} isess={if est then 1 else 0}"
+    let io := s!"res={if implOk then "ok" else "err"} sent={o'.num "sent"} isess={implSess}"
+    -- (the status report the initiator sends when it gives up is compared when it received something to give up on)
+    let mo := if rxs.isEmpty then mo else s!"{mo} notify={if notify then 1 else 0}"
+    let io := if rxs.isEmpty then io else s!"{io} notify={o'.num "notify"}"
+    if mo = io then "ok" else s!"DIS {mo}"
+
 def step (st : St) (line : String) : St × String :=
   let (op, out) := splitArrow line
   match words op with
+  | "case" :: _ :: "init" :: rest => ({ devPw := (kvOf rest).num "pw", initMode := true }, "case")
   | "case" :: _ :: rest => ({ devPw := (kvOf rest).num "pw", tamper := ((kvOf rest).get "tamper").isSome }, "case")
   | head :: rest =>
     let m := kvOf rest
+    if st.initMode then
+      (st, if head = "hs" then initStep st.devPw m (kvOf (words out)) else "ok")
+    else
     -- impl answer: `t=<ms> <reply> | <observation>`
     let (lhs, obs) := match out.splitOn " | " with
       | [a, b] => (a, b)
